@@ -447,7 +447,7 @@ func TestC04(t *testing.T) {
 	hx.Check[c04Case]{
 		Property: "C04", Part: "histories",
 		Rule:  "rapid-generated link/layout x wrapper x history of sign(k)/dump+load actions (<=4, thorough <=6) over the pool (RSA-2048/3072, P-224/256/384/521, Ed25519) with the iff-oracle after every action, an optional harness-signed file, and one negative probe (payload leaf, signature byte, key id, dropped signature, swapped public material); non-trivial = >=2 distinct signers or a dump/load between sign and verify; distinct by (wrapper, kind, action string, probe, content)",
-		Cases: hx.Pick(1200, 20000),
+		Cases: hx.Pick(1200, 100000),
 		Gen:   c04Gen, Run: c04Run,
 	}.Execute(t)
 }
